@@ -34,7 +34,8 @@ def main():
                 bad += 1
     import c15
     import c19arith
-    extra = [c15.build_translator, getattr(c19arith, "build_translator", None)]
+    import srcfp
+    extra = [c15.build_translator, getattr(c19arith, "build_translator", None), srcfp.build_tool]
     for tool in [t for t in extra if t]:
         r = tool()
         ok, out = bool(r[0]), r[1]
